@@ -101,6 +101,22 @@ func (p *FunctionBuilder) CreateFunction(m *bmodel.MethodEntry) (*gmodel.Functio
 		srcVar.Name = m.Opts.Receiver
 	}
 
+	// The operands become the receiver, parameters and results of one function: their names must differ.
+	operandNames := []string{srcVar.Name, dstVar.Name}
+	for _, arg := range additionalArgsVars {
+		operandNames = append(operandNames, arg.Name)
+	}
+	if m.RetError() {
+		operandNames = append(operandNames, "err")
+	}
+	seenNames := make(map[string]bool, len(operandNames))
+	for _, name := range operandNames {
+		if seenNames[name] {
+			return nil, logger.Errorf("%v: operand name %q is used more than once in the generated function; rename the parameter or the receiver", p.fset.Position(m.Method.Pos()), name)
+		}
+		seenNames[name] = true
+	}
+
 	var assignments []gmodel.Assignment
 	var err error
 	if m.Opts.Reverse {
